@@ -279,3 +279,54 @@ pub fn sum_product<const B: usize, const L: usize>(nd: &mut Nd) {
     chk!(nd, "C20.product.by_value", p1 == p);
     chk!(nd, "C20.product.by_ref", p2 == p);
 }
+
+/// num-traits / num-integer facades over the expensive inherent methods (pow, inv_ring, gcd, lcm, gcd_extended), which are
+/// replaced by tagged mixing functions: only the forwarding (argument order, Option handling, tuple projection) is decided.
+pub fn nt_forward<const B: usize, const L: usize>(nd: &mut Nd) {
+    use num_integer::Integer;
+    use num_traits::{Inv, Pow, PrimInt};
+    let a: Uint<B, L> = nd.uint();
+    let b: Uint<B, L> = nd.uint();
+    let e = nd.u32();
+    chk!(nd, "C20.nt.pow", Pow::pow(a, b) == a.pow(b));
+    chk!(nd, "C20.nt.inv", Inv::inv(a) == a.inv_ring());
+    chk!(nd, "C20.integer.gcd", Integer::gcd(&a, &b) == a.gcd(b));
+    let x = Integer::extended_gcd(&a, &b);
+    let (g, s, t, _) = a.gcd_extended(b);
+    chk!(nd, "C20.integer.extended_gcd", x.gcd == g && x.x == s && x.y == t);
+    // PrimInt::pow takes a u32 exponent: compared wherever the exponent is expressible in the inherent signature
+    if let Ok(eu) = Uint::<B, L>::try_from(e) {
+        cov!(nd, "primint-pow", true);
+        chk!(nd, "C20.nt.primint.pow", PrimInt::pow(a, e) == a.pow(eu));
+    }
+    if let Some(l) = a.lcm(b) {
+        cov!(nd, "lcm-some", true);
+        chk!(nd, "C20.integer.lcm", Integer::lcm(&a, &b) == l);
+    }
+}
+
+/// Integer::lcm panics exactly when the inherent lcm reports None (a failure its signature cannot express)
+pub fn nt_lcm_none_panics<const B: usize, const L: usize>(nd: &mut Nd) {
+    use num_integer::Integer;
+    let a: Uint<B, L> = nd.uint();
+    let b: Uint<B, L> = nd.uint();
+    nd.assume(a.lcm(b).is_none());
+    cov!(nd, "before-call", true);
+    let _ = Integer::lcm(&a, &b);
+    cov!(nd, "after-call", true);
+}
+
+/// PrimInt byte-order facades at widths that are a multiple of 8: swap_bytes reverses the BYTES base-256 digits,
+/// to_be/from_be are swap_bytes (little-endian target), to_le/from_le the identity
+pub fn nt_swap_bytes<const B: usize, const L: usize, const NB: usize>(nd: &mut Nd) {
+    use num_traits::PrimInt;
+    let a: Uint<B, L> = nd.uint();
+    let k = nd.below(if NB == 0 { 1 } else { NB });
+    let sw = PrimInt::swap_bytes(a);
+    if NB > 0 {
+        chk!(nd, "C20.nt.swap_bytes.byte", refm::byte(sw.as_limbs(), k) == refm::byte(a.as_limbs(), NB - 1 - k));
+    }
+    chk!(nd, "C20.nt.swap_bytes.canonical", refm::canonical(sw.as_limbs(), B));
+    chk!(nd, "C20.nt.to_be", PrimInt::to_be(a) == sw && <Uint<B, L> as PrimInt>::from_be(a) == sw);
+    chk!(nd, "C20.nt.to_le", PrimInt::to_le(a) == a && <Uint<B, L> as PrimInt>::from_le(a) == a);
+}
